@@ -200,6 +200,13 @@ def parse_arguments(
             args.append(PositionalArgument(parse_primitive(env, tokens)))
 
         if tokens.current.kind != TOKEN_COMMA:
+            if env.mode == Mode.STRICT and tokens.current.kind != TOKEN_EOF:
+                # Don't silently drop the rest of the argument list.
+                raise LiquidSyntaxError(
+                    "expected a comma separated list of arguments, "
+                    f"found {tokens.current.kind}",
+                    token=tokens.current,
+                )
             break
 
         tokens.eat(TOKEN_COMMA)
